@@ -194,6 +194,8 @@ struct wv_pl_t
 unsigned wv_steps;
 unsigned wv_pg;     /* ghost: observed byte position inside the padding block */
 unsigned wv_gk;     /* ghost: observed worker index */
+unsigned wv_worker_mask;   /* ghost: bit i is set when a worker thread has been started on buffer i (spawn model, wv_env.h) */
+#define WV_ALL_WORKERS(n) ((wv_worker_mask & ((1u << (n)) - 1u)) == ((1u << (n)) - 1u))
 #define WV_LIVE1(g, j) (((j) < (g)->size && (g)->ctrl[j].state != INV) ? 1 : 0)
 #define WV_COUNT_LIVE(g) WV_FOLD16(WV_LIVE1, +, g)
 #define WV_CD(n, a, x) ((unsigned)((x) >= (a) ? (x) - (a) : (x) + (n) - (a)))            /* cyclic distance from a to x */
